@@ -122,7 +122,29 @@ fn tracker_histories<T: TElt>(params: &Value, ws: bool) -> Outcome {
     let mut prev_states: Vec<Vec<f64>> = vec![vec![]; nc];
     // MultiChainTracker's "previous state" starts as zeros
     let mut prev_multi_states: Vec<Vec<f64>> = vec![vec![0.0; p]; nc];
+    // fault: the caller offers a state of the wrong length now and then (before the first update too); the
+    // tracker refuses it (Err) and must stay exactly as it was: count, mean, variance and the acceptance
+    // average keep describing the states it was actually fed
+    let refuse = params.get("refused_updates").and_then(|v| v.as_bool()).unwrap_or(false);
     for k in 1..=n {
+        if refuse && (k == 1 || mix(seed ^ 0xbad, k as u64) % 5 == 0) {
+            // (a state that is too LONG is accepted by the library - its first p values are used - and is not
+            // used here: whether that is right is not part of the property; a state that is too SHORT cannot
+            // be absorbed and is refused)
+            for c in 0..nc {
+                let short: Vec<T> = (0..p - 1).map(|j| T::of(state_val(seed, c, k, j, mu, sigma, shift, hold))).collect();
+                if trackers[c].step(&short).is_ok() {
+                    o.violate("short_state_accepted", "ChainTracker::step:short-state-accepted", format!("a state of length {} was accepted by a tracker of {p} parameters", short.len()));
+                    return o;
+                }
+            }
+            let short_flat: Vec<T> = (0..nc * p - 1).map(|j| T::of(j as f64)).collect();
+            if multi.step(&short_flat).is_ok() {
+                o.violate("short_state_accepted", "MultiChainTracker::step:short-state-accepted", format!("{} values accepted by a tracker of {nc} x {p}", short_flat.len()));
+                return o;
+            }
+            o.count("fault_wrong_length_update_refused", 1);
+        }
         let mut flat: Vec<T> = vec![];
         for c in 0..nc {
             let x: Vec<T> = (0..p).map(|j| T::of(state_val(seed, c, k, j, mu, sigma, shift, hold))).collect();
@@ -299,7 +321,7 @@ impl Scenario for TrackerHistories {
         let sigma = g.log_uniform(1e-6, 1e3); // any scale: f32 conditioning depends on mean/sd, not on the scale
         json!({"elt": *g.pick(&["f64", "f32", "f32", "i32", "i32", "i16", "u8"]), "chains": crate::core::size(g, 2, 16, 70), "params": crate::core::size(g, 1, 8, 70), "n": n,
                "mu": fbits(sigma * g.f64_in(-10.0, 10.0)), "sigma": fbits(sigma), "shift": fbits(if g.bool(1, 2) { 0.0 } else { g.f64_in(0.1, 3.0) }),
-               "hold": if g.bool(1, 3) { g.usize(2, 5) } else { 1 }, "gseed": g.u64()})
+               "hold": if g.bool(1, 3) { g.usize(2, 5) } else { 1 }, "gseed": g.u64(), "refused_updates": g.bool(1, 4)})
     }
     fn execute(&self, p: &Value, ws: bool) -> Outcome {
         // a panic inside a tracker (e.g. arithmetic overflow on an integer element type) is an observation
